@@ -67,6 +67,7 @@ where
             }
         }
         // single-byte corruptions: no panic, no huge allocation; if accepted, the accepted value re-serializes at its reported size
+        { let d: String = format!("{v:?}").chars().take(80).collect(); eprintln!("@@CASE {name}: single-byte corruption of the {cs} encoding of {d}"); }
         let stride = if bytes.len() > 600 { bytes.len() / 300 } else { 1 };
         let mut i = 0;
         while i < bytes.len() {
@@ -100,6 +101,8 @@ fn malformed<T: CanonicalDeserialize + Debug>(t: &mut Tally, name: &str, bytes: 
             let vs = if val == Validate::Yes { "checked" } else { "unchecked" };
             peak_reset();
             let b = bytes.clone();
+            // announced on stderr: if the library aborts the process here (allocation failure), the driver reports this case
+            eprintln!("@@CASE {name}: malformed input {:?} ({cs} {vs})", &bytes[..bytes.len().min(24)]);
             let out = t.no_panic(std::panic::AssertUnwindSafe(move || de::<T>(&b, c, val).0.map(|_| ())), || format!("{name}: malformed input {:?}", &bytes[..bytes.len().min(24)]));
             let pk = peak();
             t.check(pk <= ALLOC_LIMIT, || format!("{name}: malformed input {:?}..: single allocation of {pk} bytes", &bytes[..bytes.len().min(24)]));
@@ -129,6 +132,179 @@ struct Nested { x: (Named, (Tup, u8)), y: Vec<Named>, z: () }
 struct Gen<T: CanonicalSerialize + CanonicalDeserialize> { t: T, v: Vec<T> }
 #[derive(CanonicalSerialize, CanonicalDeserialize, PartialEq, Debug, Clone)]
 struct Unit;
+
+/// An element type with a non-trivial validity predicate and a mode-dependent size: the value is one byte when compressed and
+/// two (value, !value) when uncompressed; it is valid iff it is even.  It follows the library protocol (read, then `check()`
+/// when `Validate::Yes`).  Containers of `Ev` show whether Compress and Validate are forwarded to every element.
+#[derive(Clone, Copy, PartialEq, Eq, PartialOrd, Ord, Debug, Hash)]
+struct Ev(u8);
+impl CanonicalSerialize for Ev {
+    fn serialize_with_mode<W: Write>(&self, mut w: W, c: Compress) -> Result<(), SerializationError> {
+        w.write_all(&[self.0])?;
+        if c == Compress::No { w.write_all(&[!self.0])?; }
+        Ok(())
+    }
+    fn serialized_size(&self, c: Compress) -> usize { if c == Compress::Yes { 1 } else { 2 } }
+}
+impl Valid for Ev {
+    fn check(&self) -> Result<(), SerializationError> { if self.0 % 2 == 0 { Ok(()) } else { Err(SerializationError::InvalidData) } }
+}
+impl CanonicalDeserialize for Ev {
+    fn deserialize_with_mode<R: Read>(mut r: R, c: Compress, v: Validate) -> Result<Self, SerializationError> {
+        let mut b = [0u8; 1];
+        r.read_exact(&mut b)?;
+        if c == Compress::No {
+            let mut b2 = [0u8; 1];
+            r.read_exact(&mut b2)?;
+            if b2[0] != !b[0] { return Err(SerializationError::InvalidData); }
+        }
+        let e = Ev(b[0]);
+        if v == Validate::Yes { e.check()?; }
+        Ok(e)
+    }
+}
+#[derive(CanonicalSerialize, CanonicalDeserialize, PartialEq, Debug, Clone)]
+struct DvNamed { a: Ev, pair: (u8, Ev), deep: (u8, (Ev, (u16, Ev))) }
+#[derive(CanonicalSerialize, CanonicalDeserialize, PartialEq, Debug, Clone)]
+struct DvTup(u16, (Ev, (u8, Ev)), Ev);
+#[derive(CanonicalSerialize, CanonicalDeserialize, PartialEq, Debug, Clone)]
+struct DvOne(Ev);
+#[derive(CanonicalSerialize, CanonicalDeserialize, PartialEq, Debug, Clone)]
+struct DvGen<T: CanonicalSerialize + CanonicalDeserialize> where T: Clone { t: T, v: Vec<T>, o: Option<(T, u8)> }
+
+/// `mk(i)` builds a value whose Ev leaves are all valid except leaf number `i` (i >= leaves: all valid).
+/// Validate::Yes must reject exactly when some leaf is invalid; Validate::No must accept and return the value;
+/// both the value's own `check()` and `batch_check` over a slice holding it must agree.
+fn validity<T, F>(t: &mut Tally, name: &str, leaves: usize, mk: F)
+where
+    T: CanonicalSerialize + CanonicalDeserialize + PartialEq + Debug + Clone + Send,
+    F: Fn(usize) -> T,
+{
+    for bad in 0..=leaves {
+        let v = mk(bad);
+        let has_bad = bad < leaves;
+        for c in [Compress::Yes, Compress::No] {
+            let cs = if c == Compress::Yes { "compressed" } else { "uncompressed" };
+            let mut bytes = vec![];
+            t.check(v.serialize_with_mode(&mut bytes, c).is_ok() && bytes.len() == v.serialized_size(c), || format!("{name}: serialize / serialized_size disagree for {v:?} {cs}"));
+            let (r, used) = de::<T>(&bytes, c, Validate::No);
+            t.check(matches!(&r, Ok(w) if *w == v) && used == bytes.len(), || format!("{name}: unchecked read of {v:?} {cs} -> {r:?}"));
+            let (r, _) = de::<T>(&bytes, c, Validate::Yes);
+            t.check(r.is_err() == has_bad, || format!("{name}: checked read of {v:?} (invalid leaf: {has_bad}, leaf {bad}) {cs} -> {r:?}"));
+            // the same value inside the standard containers
+            let (r, _) = { let mut b = vec![]; vec![v.clone()].serialize_with_mode(&mut b, c).unwrap(); de::<Vec<T>>(&b, c, Validate::Yes) };
+            t.check(r.is_err() == has_bad, || format!("{name}: checked read of Vec[{v:?}] (invalid leaf {bad}: {has_bad}) {cs} -> {r:?}"));
+            let (r, _) = { let mut b = vec![]; [v.clone(), mk(leaves)].serialize_with_mode(&mut b, c).unwrap(); de::<[T; 2]>(&b, c, Validate::Yes) };
+            t.check(r.is_err() == has_bad, || format!("{name}: checked read of [{v:?}, valid] (invalid leaf {bad}: {has_bad}) {cs}"));
+            let (r, _) = { let mut b = vec![]; [mk(leaves), v.clone()].serialize_with_mode(&mut b, c).unwrap(); de::<[T; 2]>(&b, c, Validate::Yes) };
+            t.check(r.is_err() == has_bad, || format!("{name}: checked read of [valid, {v:?}] (invalid leaf {bad}: {has_bad}) {cs}"));
+            let (r, _) = { let mut b = vec![]; Some(vec![mk(leaves), v.clone()]).serialize_with_mode(&mut b, c).unwrap(); de::<Option<Vec<T>>>(&b, c, Validate::Yes) };
+            t.check(r.is_err() == has_bad, || format!("{name}: checked read of Some(Vec[valid, {v:?}]) (invalid leaf {bad}: {has_bad}) {cs}"));
+            let (r, _) = { let mut b = vec![]; (7u8, v.clone()).serialize_with_mode(&mut b, c).unwrap(); de::<(u8, T)>(&b, c, Validate::Yes) };
+            t.check(r.is_err() == has_bad, || format!("{name}: checked read of (u8, {v:?}) (invalid leaf {bad}: {has_bad}) {cs}"));
+            let (r, _) = { let mut b = vec![]; BTreeMap::from([(1u8, mk(leaves)), (2u8, v.clone())]).serialize_with_mode(&mut b, c).unwrap(); de::<BTreeMap<u8, T>>(&b, c, Validate::Yes) };
+            t.check(r.is_err() == has_bad, || format!("{name}: checked read of BTreeMap{{1: valid, 2: {v:?}}} (invalid leaf {bad}: {has_bad}) {cs}"));
+            let (r, _) = { let mut b = vec![]; VecDeque::from(vec![v.clone(), mk(leaves)]).serialize_with_mode(&mut b, c).unwrap(); de::<VecDeque<T>>(&b, c, Validate::Yes) };
+            t.check(r.is_err() == has_bad, || format!("{name}: checked read of VecDeque[{v:?}, valid] (invalid leaf {bad}: {has_bad}) {cs}"));
+            let (r, _) = { let mut b = vec![]; LinkedList::from([mk(leaves), v.clone()]).serialize_with_mode(&mut b, c).unwrap(); de::<LinkedList<T>>(&b, c, Validate::Yes) };
+            t.check(r.is_err() == has_bad, || format!("{name}: checked read of LinkedList[valid, {v:?}] (invalid leaf {bad}: {has_bad}) {cs}"));
+            let (r, _) = { let mut b = vec![]; Arc::new(v.clone()).serialize_with_mode(&mut b, c).unwrap(); de::<Arc<T>>(&b, c, Validate::Yes) };
+            t.check(r.is_err() == has_bad, || format!("{name}: checked read of Arc({v:?}) (invalid leaf {bad}: {has_bad}) {cs}"));
+        }
+        t.check(v.check().is_err() == has_bad, || format!("{name}: check() of {v:?} (invalid leaf {bad}: {has_bad})"));
+        let sl = [mk(leaves), v.clone(), mk(leaves)];
+        t.check(T::batch_check(sl.iter()).is_err() == has_bad, || format!("{name}: batch_check over [valid, {v:?}, valid] (invalid leaf {bad}: {has_bad})"));
+        t.check(T::batch_check([v.clone()].iter()).is_err() == has_bad, || format!("{name}: batch_check over [{v:?}] (invalid leaf {bad}: {has_bad})"));
+    }
+}
+
+fn ev(i: usize, bad: usize, k: u8) -> Ev { if i == bad { Ev(2 * k + 1) } else { Ev(2 * k) } }
+
+pub fn ser_validity(t: &mut Tally) {
+    // mode-dependent element size: sizes and encodings of every container follow the element's mode
+    for n in [0usize, 1, 2, 5] {
+        let v: Vec<Ev> = (0..n).map(|i| Ev((2 * i) as u8)).collect();
+        chk(t, "Vec<Ev>", &v);
+        chk(t, "VecDeque<Ev>", &v.iter().cloned().collect::<VecDeque<Ev>>());
+        chk(t, "LinkedList<Ev>", &v.iter().cloned().collect::<LinkedList<Ev>>());
+        chk(t, "BTreeSet<Ev>", &v.iter().cloned().collect::<BTreeSet<Ev>>());
+        chk(t, "BTreeMap<Ev,Ev>", &v.iter().cloned().map(|e| (e, Ev(e.0 ^ 2))).collect::<BTreeMap<Ev, Ev>>());
+        chk(t, "Option<Vec<Ev>>", &Some(v.clone()));
+        chk(t, "Arc<Vec<Ev>>", &Arc::new(v.clone()));
+        let cow: Cow<'static, Vec<Ev>> = Cow::Owned(v.clone());
+        chk(t, "Cow<Vec<Ev>>", &cow);
+        chk(t, "CompressedChecked<Vec<Ev>>", &CompressedChecked(v.clone()));
+        chk(t, "CompressedUnchecked<Vec<Ev>>", &CompressedUnchecked(v.clone()));
+        chk(t, "UncompressedChecked<Vec<Ev>>", &UncompressedChecked(v.clone()));
+        chk(t, "UncompressedUnchecked<Vec<Ev>>", &UncompressedUnchecked(v.clone()));
+        for c in [Compress::Yes, Compress::No] {
+            // explicit expected encoding: length prefix, then every element in mode c
+            let mut exp = (n as u64).to_le_bytes().to_vec();
+            for e in &v { exp.push(e.0); if c == Compress::No { exp.push(!e.0); } }
+            let mut b = vec![]; v.serialize_with_mode(&mut b, c).unwrap();
+            t.check(b == exp, || format!("Vec<Ev> len {n}: encoding is not prefix + elements in the caller's mode"));
+            let mut b = vec![]; v.iter().cloned().collect::<VecDeque<Ev>>().serialize_with_mode(&mut b, c).unwrap();
+            t.check(b == exp, || format!("VecDeque<Ev> len {n}: encoding is not prefix + elements in the caller's mode"));
+            let mut b = vec![]; v.iter().cloned().collect::<LinkedList<Ev>>().serialize_with_mode(&mut b, c).unwrap();
+            t.check(b == exp, || format!("LinkedList<Ev> len {n}: encoding is not prefix + elements in the caller's mode"));
+            let mut b = vec![]; v.iter().cloned().collect::<BTreeSet<Ev>>().serialize_with_mode(&mut b, c).unwrap();
+            t.check(b == exp, || format!("BTreeSet<Ev> len {n}: encoding is not prefix + elements in the caller's mode"));
+            // pinned wrappers: bytes AND reported size are those of the pinned mode, whatever mode the caller passes
+            let mut cb = vec![]; v.serialize_compressed(&mut cb).unwrap();
+            let mut ub = vec![]; v.serialize_uncompressed(&mut ub).unwrap();
+            let mut b = vec![]; CompressedChecked(v.clone()).serialize_with_mode(&mut b, c).unwrap();
+            t.check(b == cb && CompressedChecked(v.clone()).serialized_size(c) == cb.len(), || format!("CompressedChecked<Vec<Ev>> len {n}: bytes or size not those of the compressed mode"));
+            let mut b = vec![]; CompressedUnchecked(v.clone()).serialize_with_mode(&mut b, c).unwrap();
+            t.check(b == cb && CompressedUnchecked(v.clone()).serialized_size(c) == cb.len(), || format!("CompressedUnchecked<Vec<Ev>> len {n}: bytes or size not those of the compressed mode"));
+            let mut b = vec![]; UncompressedChecked(v.clone()).serialize_with_mode(&mut b, c).unwrap();
+            t.check(b == ub && UncompressedChecked(v.clone()).serialized_size(c) == ub.len(), || format!("UncompressedChecked<Vec<Ev>> len {n}: bytes or size not those of the uncompressed mode"));
+            let mut b = vec![]; UncompressedUnchecked(v.clone()).serialize_with_mode(&mut b, c).unwrap();
+            t.check(b == ub && UncompressedUnchecked(v.clone()).serialized_size(c) == ub.len(), || format!("UncompressedUnchecked<Vec<Ev>> len {n}: bytes or size not those of the uncompressed mode"));
+        }
+    }
+    // pinned wrappers and validation: the Checked wrappers validate whatever the caller says, the Unchecked ones never do
+    for c in [Compress::Yes, Compress::No] {
+        for val in [Validate::Yes, Validate::No] {
+            let bad = vec![Ev(2), Ev(3)];
+            let mut cb = vec![]; bad.serialize_compressed(&mut cb).unwrap();
+            let mut ub = vec![]; bad.serialize_uncompressed(&mut ub).unwrap();
+            t.check(de::<CompressedChecked<Vec<Ev>>>(&cb, c, val).0.is_err(), || "CompressedChecked accepts an invalid element".into());
+            t.check(de::<UncompressedChecked<Vec<Ev>>>(&ub, c, val).0.is_err(), || "UncompressedChecked accepts an invalid element".into());
+            t.check(de::<CompressedUnchecked<Vec<Ev>>>(&cb, c, val).0.is_ok(), || "CompressedUnchecked validates".into());
+            t.check(de::<UncompressedUnchecked<Vec<Ev>>>(&ub, c, val).0.is_ok(), || "UncompressedUnchecked validates".into());
+        }
+    }
+    // validation reaches every leaf
+    validity::<Ev, _>(t, "Ev", 1, |b| ev(0, b, 1));
+    validity::<(Ev, Ev), _>(t, "(Ev,Ev)", 2, |b| (ev(0, b, 1), ev(1, b, 2)));
+    validity::<(u8, (Ev, (Ev, u16)), Ev), _>(t, "(u8,(Ev,(Ev,u16)),Ev)", 3, |b| (9, (ev(0, b, 1), (ev(1, b, 2), 7)), ev(2, b, 3)));
+    validity::<[Ev; 3], _>(t, "[Ev;3]", 3, |b| [ev(0, b, 1), ev(1, b, 2), ev(2, b, 3)]);
+    validity::<Option<Ev>, _>(t, "Option<Ev>", 1, |b| Some(ev(0, b, 1)));
+    for n in [1usize, 2, 3, 9] {
+        validity::<Vec<Ev>, _>(t, "Vec<Ev>", n, |b| (0..n).map(|i| ev(i, b, i as u8)).collect());
+        validity::<VecDeque<Ev>, _>(t, "VecDeque<Ev>", n, |b| (0..n).map(|i| ev(i, b, i as u8)).collect());
+        validity::<LinkedList<Ev>, _>(t, "LinkedList<Ev>", n, |b| (0..n).map(|i| ev(i, b, i as u8)).collect());
+        validity::<BTreeSet<Ev>, _>(t, "BTreeSet<Ev>", n, |b| (0..n).map(|i| ev(i, b, i as u8)).collect());
+        validity::<BTreeMap<Ev, u8>, _>(t, "BTreeMap<Ev,u8> (keys)", n, |b| (0..n).map(|i| (ev(i, b, i as u8), 5)).collect());
+        validity::<BTreeMap<u8, Ev>, _>(t, "BTreeMap<u8,Ev> (values)", n, |b| (0..n).map(|i| (i as u8, ev(i, b, i as u8))).collect());
+        validity::<BTreeMap<Ev, Ev>, _>(t, "BTreeMap<Ev,Ev>", 2 * n, |b| (0..n).map(|i| (ev(2 * i, b, i as u8), ev(2 * i + 1, b, 100 + i as u8))).collect());
+        validity::<Vec<Vec<Ev>>, _>(t, "Vec<Vec<Ev>>", n, |b| (0..n).map(|i| vec![Ev(0), ev(i, b, i as u8)]).collect());
+        validity::<Vec<Option<Ev>>, _>(t, "Vec<Option<Ev>>", n, |b| (0..n).map(|i| if i % 3 == 2 && i != b { None } else { Some(ev(i, b, i as u8)) }).collect());
+        validity::<Vec<(u8, Ev)>, _>(t, "Vec<(u8,Ev)>", n, |b| (0..n).map(|i| (i as u8, ev(i, b, i as u8))).collect());
+        validity::<Arc<Vec<Ev>>, _>(t, "Arc<Vec<Ev>>", n, |b| Arc::new((0..n).map(|i| ev(i, b, i as u8)).collect()));
+        validity::<Vec<DvOne>, _>(t, "Vec<derive DvOne>", n, |b| (0..n).map(|i| DvOne(ev(i, b, i as u8))).collect());
+    }
+    validity::<Cow<'static, Vec<Ev>>, _>(t, "Cow<Vec<Ev>>", 2, |b| Cow::Owned(vec![ev(0, b, 1), ev(1, b, 2)]));
+    // derived Valid: named fields, tuple fields, nested tuples, single-field tuple struct, generics
+    validity::<DvNamed, _>(t, "derive DvNamed", 4, |b| DvNamed { a: ev(0, b, 1), pair: (3, ev(1, b, 2)), deep: (4, (ev(2, b, 3), (5, ev(3, b, 4)))) });
+    validity::<DvTup, _>(t, "derive DvTup", 3, |b| DvTup(1, (ev(0, b, 1), (2, ev(1, b, 2))), ev(2, b, 3)));
+    validity::<DvOne, _>(t, "derive DvOne", 1, |b| DvOne(ev(0, b, 1)));
+    validity::<DvGen<Ev>, _>(t, "derive DvGen<Ev>", 4, |b| DvGen { t: ev(0, b, 1), v: vec![ev(1, b, 2), ev(2, b, 3)], o: Some((ev(3, b, 4), 1)) });
+    validity::<DvGen<DvTup>, _>(t, "derive DvGen<DvTup>", 6, |b| DvGen { t: DvTup(1, (ev(0, b, 1), (2, ev(1, b, 2))), ev(2, b, 3)), v: vec![DvTup(1, (ev(3, b, 1), (2, ev(4, b, 2))), ev(5, b, 3))], o: None });
+    chk(t, "derive DvNamed", &DvNamed { a: Ev(2), pair: (3, Ev(4)), deep: (4, (Ev(6), (5, Ev(8)))) });
+    chk(t, "derive DvTup", &DvTup(1, (Ev(2), (2, Ev(4))), Ev(6)));
+    chk(t, "derive DvGen<Ev>", &DvGen { t: Ev(2), v: vec![Ev(4), Ev(6)], o: Some((Ev(8), 1)) });
+}
 
 pub fn ser_impls(t: &mut Tally, seed: u64) {
     let mut rng = crate::Rng(seed.wrapping_mul(0x9E3779B97F4A7C15) | 1);
@@ -320,4 +496,5 @@ pub fn ser_impls(t: &mut Tally, seed: u64) {
         let m: BTreeMap<u16, Option<Vec<u8>>> = (0..n).map(|i| (rng.next() as u16, if i % 2 == 0 { None } else { Some(vec![i as u8; i]) })).collect();
         chk(t, "random BTreeMap<u16,Option<Vec<u8>>>", &m);
     }
+    ser_validity(t);
 }
